@@ -4,6 +4,7 @@ import (
 	"fmt"
 	"os"
 	"strings"
+	"sync"
 	"time"
 
 	"verif/internal/drive"
@@ -37,12 +38,21 @@ func confirmPairCLI(cs map[string]any) (string, drive.CLIResult, error) {
 			fmt.Fprintf(&b, "// goverter:%s\n", l)
 		}
 	}
-	fmt.Fprintf(&b, "type C interface {\n\tConvert(source %s) %s\n}\n", cs["source"], cs["target"])
+	iface, _ := cs["iface"].(string)
+	if iface == "" {
+		iface = "C"
+	}
+	fmt.Fprintf(&b, "type %s interface {\n\tConvert(source %s) %s\n}\n", iface, cs["source"], cs["target"])
 	mod.Add("conv/conv.go", b.String())
 	if err := mod.Write(); err != nil {
 		return "", drive.CLIResult{}, err
 	}
 	r := drive.RunCLI(mod.Dir, 120*time.Second, "gen", "./conv")
+	if r.Exit == 0 {
+		if b, err := os.ReadFile(mod.Dir + "/conv/generated/generated.go"); err == nil {
+			r.Stdout = filesHash(map[string][]byte{"f": b})
+		}
+	}
 	return cliClass(r), r, nil
 }
 
@@ -80,6 +90,7 @@ func RunPairs(run *ev.Run, tier string) {
 	counts := map[string]int{}
 	confirmed, disagreements := 0, 0
 	seen := map[string]bool{}
+	reps := map[string]*pool.Rep{}
 	crashes := pool.Run("pairs", nWorkers, []string{tier}, 100*time.Minute, func(shard int, m pool.Msg) {
 		switch m.T {
 		case "counts":
@@ -88,6 +99,10 @@ func RunPairs(run *ev.Run, tier string) {
 			}
 		case "sample":
 			run.Sample(m.Sample)
+		case "rep":
+			if reps[m.Rep.Class] == nil {
+				reps[m.Rep.Class] = m.Rep
+			}
 		case "viol":
 			if m.V.Property != run.Prop {
 				return
@@ -114,6 +129,34 @@ func RunPairs(run *ev.Run, tier string) {
 			run.Report(*m.V)
 		}
 	})
+	// conformance of the in-process path with the product: one representative per equivalence class
+	// (model verdict x real outcome x reason class) is generated again by the real CLI binary.
+	{
+		var mu sync.Mutex
+		var wg sync.WaitGroup
+		sem := make(chan bool, nWorkers)
+		for _, rep := range reps {
+			wg.Add(1)
+			sem <- true
+			go func(rep *pool.Rep) {
+				defer wg.Done()
+				defer func() { <-sem }()
+				class, r, err := confirmPairCLI(rep.Case)
+				mu.Lock()
+				defer mu.Unlock()
+				if err != nil {
+					return
+				}
+				confirmed++
+				if class != rep.Kind || (class == "files" && r.Stdout != rep.Hash) {
+					disagreements++
+					fmt.Fprintf(os.Stderr, "CONFORMANCE: in-process %s/%s vs CLI %s/%s for %v\n%s\n", rep.Kind, rep.Hash, class, r.Stdout, rep.Case, firstN(r.Stderr, 400))
+				}
+			}(rep)
+		}
+		wg.Wait()
+		run.Cov["equivalence_classes"] = len(reps)
+	}
 	for _, c := range crashes {
 		counts["worker_crashes"]++
 		if run.Prop == "C13" {
@@ -136,7 +179,7 @@ func RunPairs(run *ev.Run, tier string) {
 	}
 	run.Cov["evaluations"] = counts["evaluations"]
 	run.Cov["distinct_nontrivial"] = counts["distinct_nontrivial_pairs"]
-	run.Cov["states"] = len(ps.types) * len(ps.types)
+	run.Cov["states"] = len(ps.pairs)
 	run.Cov["transitions"] = counts["transitions"]
 	run.Cov["traces_validated_against_impl"] = confirmed
 	run.Cov["inprocess_cli_disagreements"] = disagreements
